@@ -1,6 +1,6 @@
 ENGINES = [
     {"name": "E-ENUM", "path": "harness/runner harness/circgen harness/bitsim harness/drbg",
-     "serves_properties": ["C01","C06","C13","C14"],
+     "serves_properties": ["C01","C06","C13","C14","C15","C20"],
      "kind_free_text": "bounded-exhaustive enumeration (odometers over finite alphabets, simplest first) of cases run on the real code and compared with an independent reference; 16 worker processes; violations confirmed by 3 replays"},
 ]
 NOTES = ("Every check rebuilds its driver against /repo's current working tree (go build with replace => /repo). "
@@ -24,4 +24,12 @@ CHECKS = {
    technique="exhaustive fault enumeration: every truncation, bit flip, byte deletion/duplication, field splice and appended record of valid circuit files, plus bounded-exhaustive round trips",
    text="Round trip of every circuit with <=3 inputs and <=3 gates (quick: <=2..3 gates) in both formats, compiled programs with array/struct I/O, synthetic headers (names of 0..70000 bytes, up to 400 compound members): same gates, counts, signature, bytes and function. Malformed: for 11-15 seed files per run every truncation length, every single-bit flip, every one-byte deletion/duplication, appended records/junk, every offset as a u32 set to 5 values (native) and every token replaced by 9 values, every line deleted/duplicated (Bristol). Oracle: error, or a circuit whose gate inputs are defined before use and whose wires are all assigned; no panic, no hang (60 s), risky cases in a memory-capped child process.",
    note="Inputs whose declared sizes exceed 10^6 are skipped by a tolerant pre-scan written in the harness (the property's precondition)."),
+ "C15": dict(engine="E-FAULT", level="fault_enumeration",
+   technique="exhaustive fault enumeration over the receiver's recorded extension messages: every (column,row) bit of payload and check matrices, pairs, columns, rows, lengths, response bits; real sender re-run on each",
+   text="The honest malicious-mode receiver is recorded once per (n, choices); the real sender is re-run on every mutated message list: every (column 0..127, row) single-bit flip of the payload matrix and of the 256-row check matrix for n in {1,9,64} (thorough also 8,130), all pairs within a row/column among the first 16, whole columns/rows, chunk length +-128, every bit of seed2/x/t0/t1; for multi-chunk batches (513, 1030; thorough 600, 2049) every row of every chunk for 8 columns and every column for boundary rows; each under Delta and its complement so that every column is selected once. Oracle: abort, or the correlation still holds for the receiver's original choices. Honest runs for every n in 1..300 (700) never abort.",
+   note="Ideal base OT; the mul128 implementation the build selects (CLMUL assembly on amd64)."),
+ "C20": dict(engine="E-ENUM", level="exploration",
+   technique="bounded-exhaustive enumeration of vector lengths x moduli x element-class pairs (VOLE) and of (a,b,s) x seeds (BMR gadgets) against math/big",
+   text="VOLE over p2p.Conn on an in-memory link for 16 moduli from 2 to 2^256-1 (incl. 33..64-bit and 65..128-bit ones), every length 1..40 plus chunk-boundary lengths to 1025 (thorough 2000), element classes {0,1,2,p-1,p-2,p/2,random} scheduled so that every (x-class, y-class) pair occurs, multi-call histories, ideal and Chou-Orlandi base OT: u-r = x*y mod p, shares in [0,p). BMR FxSend/FxReceive for all (a,b) x 64 seeds (both values of r observed) and FxkSend/FxkReceive for b x 36 strings.",
+   note="Free-running goroutines (two-party Kahn network, schedule-independent results); bmr label randomness seeded through an import-rewrite overlay generated at check time."),
 }
